@@ -1405,6 +1405,16 @@ class Interp:
             if isinstance(t, ModRef) and t.name == "numpy.ndarray" and \
                     getattr(o, "skv_isarray", False):
                 return True
+            if isinstance(t, ModRef) and isinstance(
+                    o, (bool, int, float, str, list, tuple, dict, set,
+                        type(None))):
+                # plain Python values are instances of no external class,
+                # except the numeric ABCs
+                if t.name == "numbers.Integral":
+                    return isinstance(o, int)
+                if t.name in ("numbers.Number", "numbers.Real"):
+                    return isinstance(o, (int, float))
+                return False
             if isinstance(t, ModRef) and t.name == "numpy.ndarray":
                 # a run-time ndarray is exactly a value that depends on the
                 # point array: Poly/Rat/Arr here; Python numbers stay numbers
